@@ -546,4 +546,74 @@ Section Compose.
     destruct (rev (filter (fun mi => mpath_is mi "attributes") (flat_items attrs))) as [|x xs]; [reflexivity|].
     destruct x as [| |i p ti [|y ys]| |]; reflexivity.
   Qed.
+
+  (** *** a struct receiver, whole: the derive accepts exactly the well-formed declarations *)
+  Notation resolve := (resolve reparse reparse_preds).
+  Notation well_formed_10 := (well_formed_10 reparse reparse_preds).
+  Notation container_wf := (container_wf reparse reparse_preds).
+
+  Definition no_default_after_from_ident (attrs : list nested) : Prop :=
+    exists items, all_items attrs = Some items /\ default_after_from_ident false items = false.
+
+  Theorem resolve_struct_is_the_reading t d style rfs fspan :
+    rd_body d = RStruct style rfs fspan ->
+    Forall attr_shaped (rd_attrs d) ->
+    Forall (fun rf => Forall attr_shaped (rf_attrs rf)) rfs ->
+    (style = StTuple -> Forall (fun rf => rf_ident rf = None) rfs) ->
+    ((exists c b, resolve t d = Accepted c b)
+     <-> well_formed_10 t d = true /\ no_default_after_from_ident (rd_attrs d)).
+  Proof.
+    intros B SHc SHf TU. unfold Resolve.resolve, Spec.C10.well_formed_10. rewrite B.
+    pose proof (container_chain_is_the_reading reparse reparse_preds t (rd_attrs d) SHc) as CC.
+    destruct (parse_attributes (container_step t) copts0 (rd_attrs d)) as [c errs] eqn:PA. cbn [snd] in CC.
+    destruct errs as [|e es].
+    - (* the container chain is clean *)
+      destruct (proj1 CC eq_refl) as [CW [items [A D]]].
+      assert (E : snd (parse_attributes (container_step t) copts0 (rd_attrs d)) = []) by now rewrite PA.
+      pose proof (accepted_container_records t (rd_attrs d) SHc E) as [RF RW]. rewrite PA in RF, RW. cbn [fst] in RF, RW.
+      pose proof (accepted_container_names t (rd_attrs d) items SHc A E) as RN. rewrite PA in RN. cbn [fst] in RN.
+      pose proof (struct_body_is_the_reading t c d style rfs fspan B SHf TU) as SB. rewrite RF, RW in SB.
+      rewrite CW. cbn [andb].
+      assert (FO : forallb (fun rf => if is_magic t rf then magic_wf t rf else field_wf (rf_attrs rf)) rfs = forallb (field_ok t) rfs) by reflexivity.
+      rewrite FO. unfold struct_reading in SB.
+      destruct (Resolve.resolve_body reparse reparse_preds t c d) as [ob errs2] eqn:RB. cbn [snd] in SB.
+      assert (OB : exists b, ob = Some b).
+      { unfold Resolve.resolve_body in RB. rewrite B in RB. destruct (fold_left _ rfs _). injection RB as <- _. eauto. }
+      destruct OB as [b ->].
+      destruct errs2 as [|e2 es2].
+      + (* the body is clean *)
+        pose proof (proj1 SB eq_refl) as SR. repeat rewrite andb_true_iff in SR. destruct SR as [[[S1 S2] S3] S4].
+        rewrite S1, S2, S3. cbn [andb]. destruct (is_outer t) eqn:O.
+        * rewrite S4. cbn [andb]. destruct t; try discriminate; try (split; [intros _; split; [reflexivity|exists items; auto]|eauto]).
+          (* FromAttributes: the name rule *)
+          unfold newtype_body. rewrite B. rewrite A.
+          assert (HN : (match c_attr_names c with [] => true | _ => false end) = negb (has_names c)) by (unfold has_names; destruct (c_attr_names c); reflexivity).
+          rewrite HN, RN.
+          destruct style; destruct rfs as [|x [|y r]]; cbn [negb andb];
+            destruct (rev (filter (fun mi => mpath_is mi "attributes") items)) as [|[| |? ? ? [|? ?]| |] ?]; cbn [negb];
+            split; try (intros [c0 [b0 H]]; discriminate); try (intros _; split; [reflexivity|exists items; auto]);
+            try (intros [H _]; discriminate); eauto.
+        * rewrite S4. destruct t; try discriminate. split; [intros _; split; [reflexivity|exists items; auto]|eauto].
+      + (* the body has errors *)
+        split; [intros [c0 [b0 H]]; discriminate|].
+        intros [W _]. exfalso.
+        assert (SR : forallb (field_ok t) rfs
+                     && match style with
+                        | StTuple => Nat.eqb (List.length rfs) 1 && match t with DFromField | DFromVariant | DFromTypeParam => false | _ => true end
+                        | _ => true
+                        end
+                     && Nat.leb (List.length (filter (fun rf => negb (is_magic t rf) && is_flatten_field (rf_attrs rf)) rfs)) 1
+                     && (if is_outer t
+                         then negb (existsb (fun rf => match rf_ident rf with Some n => str_eqb n "attrs" | None => false end) rfs)
+                              || has_option "forward_attrs" (rd_attrs d)
+                         else negb (has_option "from_word" (rd_attrs d)
+                                    && match style, rfs with StUnit, _ => true | StTuple, [_] => true | _, _ => false end)) = true).
+        { repeat rewrite andb_true_iff in W. destruct W as [[[W1 W2] W3] W4]. rewrite W1, W2, W3. cbn [andb].
+          destruct (is_outer t); [apply andb_true_iff in W4 as [W4 _]; exact W4|exact W4]. }
+        apply SB in SR. discriminate.
+    - (* the container chain has errors *)
+      split; [intros [c0 [b0 H]]; discriminate|].
+      intros [W [items [A D]]]. exfalso. apply andb_true_iff in W as [W _]. repeat rewrite andb_true_iff in W. destruct W as [[[W _] _] _].
+      assert (X : e :: es = []) by (apply CC; split; [exact W|exists items; auto]). discriminate.
+  Qed.
 End Compose.
